@@ -4,6 +4,7 @@ import (
 	"bufio"
 	"fmt"
 	"io"
+	"os"
 	"os/exec"
 	"strconv"
 	"strings"
@@ -34,6 +35,9 @@ type Solver struct {
 	Time    time.Duration
 	Log     io.Writer
 	Errors  int
+
+	TimeoutMs int
+	Defs      int // definitions sent since the process started
 }
 
 func NewSolver(kind string) (*Solver, error) { return NewSolverT(kind, 0) }
@@ -45,7 +49,7 @@ func NewSolverT(kind string, timeoutSec int) (*Solver, error) {
 	case "z3", "z3-new":
 		args := []string{"-in", "-smt2"}
 		if timeoutSec > 0 {
-			args = append(args, "-t:"+strconv.Itoa(timeoutSec*1000))
+			args = append(args, "-t:"+strconv.Itoa(timeoutSec*1000), "-memory:6000")
 		}
 		cmd = exec.Command(kind, args...)
 	case "cvc5":
@@ -65,7 +69,12 @@ func NewSolverT(kind string, timeoutSec int) (*Solver, error) {
 	if err := cmd.Start(); err != nil {
 		return nil, err
 	}
-	s := &Solver{Name: kind, cmd: cmd, in: in, out: bufio.NewReaderSize(outp, 1<<16)}
+	s := &Solver{Name: kind, cmd: cmd, in: in, out: bufio.NewReaderSize(outp, 1<<16), TimeoutMs: timeoutSec * 1000}
+	if lp := os.Getenv("VERIF_SMTLOG"); lp != "" {
+		if f, err := os.OpenFile(lp+"."+strconv.Itoa(cmd.Process.Pid), os.O_CREATE|os.O_WRONLY|os.O_TRUNC, 0o644); err == nil {
+			s.Log = f
+		}
+	}
 	s.send("(set-option :produce-models true)")
 	if kind == "cvc5" {
 		s.send("(set-logic QF_BV)")
@@ -88,6 +97,14 @@ func (s *Solver) send(line string) {
 	}
 	io.WriteString(s.in, line)
 	io.WriteString(s.in, "\n")
+}
+
+// HardReset clears the whole solver state between jobs.
+func (s *Solver) HardReset() {
+	s.send("(reset)")
+	s.send("(set-option :produce-models true)")
+	s.base = nil
+	s.Reset()
 }
 
 // Reset drops the path condition and all definitions.
@@ -151,6 +168,7 @@ func (s *Solver) define(t *Term) string {
 	default:
 		body = "(" + opNames[t.Op] + " " + strings.Join(args, " ") + ")"
 	}
+	s.Defs++
 	s.send(fmt.Sprintf("(define-fun %s () %s %s)", name, sortOf(t), body))
 	s.mark(t.ID)
 	return name
@@ -182,7 +200,11 @@ func (s *Solver) Check(extra []*Term, vars []*Term) (Result, map[string]uint64) 
 		names = append(names, s.define(v))
 	}
 	if strings.HasPrefix(s.Name, "z3") {
-		s.send("(check-sat-using qfbv)")
+		if s.TimeoutMs > 0 {
+			s.send("(check-sat-using (try-for qfbv " + strconv.Itoa(s.TimeoutMs) + "))")
+		} else {
+			s.send("(check-sat-using qfbv)")
+		}
 	} else {
 		s.send("(check-sat)")
 	}
